@@ -64,7 +64,8 @@ def parse_sgrid(ds):
 
     sgrid_ax_names = sgrid.get_all_axes(ds)
     parsed_coords = {}
-    for ax_name in sgrid_ax_names:
+    # sgrid_ax_names is a set of the fixed names "X", "Y", "Z": iterate it in that order
+    for ax_name in sorted(sgrid_ax_names):
         parsed_coords[ax_name] = sgrid.get_axis_positions_and_coords(ds, ax_name)
 
     sgrid_grid_kwargs = {"coords": parsed_coords}
